@@ -18,13 +18,14 @@ for d, m in metas.items():
         w["missed"] += 1
 n = len(metas)
 now = sum(1 for m in metas.values() if m.get("caught_by_quick_check_now"))
-low = sorted(d for d, m in metas.items() if (m.get("detection_rate") or 0) < 0.005 and m.get("caught_by_check") != "C20")
+low = sorted(d for d, m in metas.items() if (m.get("detection_rate") or 0) < 0.005 and m.get("caught_by_check") != "C20" and m.get("caught_by_quick_check_now"))
+missed = sorted(d for d, m in metas.items() if m.get("caught_by_quick_check_now") is False)
 other = sorted("%s (by the %s check)" % (d, m["caught_by_check"]) for d, m in metas.items() if m.get("caught_by_check") and m["caught_by_check"] != m["property"])
 table = subprocess.run([sys.executable, os.path.join(ROOT, "tools", "seeded_table.py")], capture_output=True, text=True, check=True).stdout
 per_wave = "; ".join("wave %d: %d of %d caught as the checks were, %d missed" % (k, v["n"] - v["missed"], v["n"], v["missed"]) for k, v in sorted(waves.items()))
 intro = """### 9.5 Seeded changes: which checks catch which
 
-%d changes to rockit were written by independent sub-agents in six waves. Each agent saw only the text of its
+%d changes to rockit were written by independent sub-agents in seven waves (six in the first session, the seventh in the second). Each agent saw only the text of its
 property / properties and a scratch worktree of /repo, nothing from /verif; from the second wave on it was also given the
 list of mechanisms already used (to avoid). Each change keeps `import rockit` working and the 41 baseline tests passing
 (confirmed by me on a scratch worktree with the baseline command; one fifth-wave change failed `test_control_grid` in my
@@ -34,13 +35,16 @@ applying to the current /repo HEAD, `demo.py`, `meta.json`). Protocol for every 
 demonstration and the quick check of the property (exit 1 with VIOLATION lines, no harness error), `git -C /repo
 checkout -- .` (`tools/try_mutant.sh`). The detection rate per seed in the table was measured at the very end, with the
 generator frozen, on a scratch worktree (`tools/power.py` via `tools/power_all.py`: 500 seeds for the history engines,
-300 for C12 / C19, 36 units for C20, each unit being a complete fault matrix).
+300 for C12 / C19, 36 units for C20, each unit being a complete fault matrix). The seventh wave (`*_w7_*`) was handled
+without touching /repo at all: every check honours `RSIM_REPO=<scratch worktree with the change>`, the demonstration ran
+with `PYTHONPATH` pointing at that worktree and at /repo; its rates are those of the single quick run quoted in the table.
 
 As the checks were when a wave arrived: %s. Every miss pointed at something the workload never did or at an exception
 the harness swallowed (9.4), two at an oracle that was too coarse (callback counted by name; a case stopped at a refused
-declaration). After strengthening, %d of %d are caught by the registered quick checks%s.
+declaration). After strengthening, %d of %d are caught by the registered quick checks%s.%s
 
-""" % (n, per_wave, now, n, (" (" + ", ".join(other) + ")") if other else "")
+""" % (n, per_wave, now, n, (" (" + ", ".join(other) + ")") if other else "",
+       (" **Not caught:** " + ", ".join(missed) + " (reason and what would catch it: in its meta.json and the table).") if missed else "")
 outro = """
 Detection rates below about 0.5 %% per seed (%s) still give several hits in a quick run (1 500 - 3 000 seeds) but can be
 missed by an unlucky one; the thorough tier runs about ten times as many seeds.
